@@ -227,12 +227,25 @@ func (server *SugarDB) setValues(ctx context.Context, entries map[string]interfa
 	server.storeLock.Lock()
 	defer server.storeLock.Unlock()
 
-	if internal.IsMaxMemoryExceeded(server.memUsed, server.config.MaxMemory) && server.config.EvictionPolicy == constants.NoEviction {
+	database := ctx.Value("Database").(int)
 
+	if internal.IsMaxMemoryExceeded(server.memUsed, server.config.MaxMemory) && server.config.EvictionPolicy == constants.NoEviction {
+		// The write is refused, but the handler that asks for it has usually changed the stored collection
+		// in place already. Re-measure the keys it names, so that the figure stays that of the dataset on
+		// every path that executes commands (the state machine of a cluster included: a node restored from
+		// a snapshot measures afresh, and would otherwise decide differently from its peers).
+		for key := range entries {
+			if data, ok := server.store[database][key]; ok {
+				if mem, err := data.GetMem(); err == nil {
+					mem += int64(unsafe.Sizeof(key)) + int64(len(key))
+					server.memUsed += mem - data.Mem
+					data.Mem = mem
+					server.store[database][key] = data
+				}
+			}
+		}
 		return errors.New("max memory reached, key value not set")
 	}
-
-	database := ctx.Value("Database").(int)
 
 	// If database does not exist, create it.
 	if server.store[database] == nil {
